@@ -15,6 +15,7 @@ import (
 	"github.com/GuanceCloud/platypus/pkg/errchain"
 	"github.com/GuanceCloud/platypus/pkg/inimpl/guancecloud/input"
 	"github.com/antchfx/xmlquery"
+	"github.com/antchfx/xpath"
 )
 
 func XMLChecking(ctx *runtime.Task, funcExpr *ast.CallExpr) *errchain.PlError {
@@ -92,7 +93,6 @@ func XML(ctx *runtime.Task, funcExpr *ast.CallExpr) *errchain.PlError {
 		l.Debug(err)
 		return nil
 	}
-	// xmlquery already caches the compiled expression for us.
 	dest, err := queryXMLNode(doc, xpathExpr)
 	if err != nil {
 		l.Debug(err)
@@ -122,5 +122,13 @@ func queryXMLNode(doc *xmlquery.Node, expr string) (node *xmlquery.Node, err err
 			node, err = nil, fmt.Errorf("xpath expr %s: %v", expr, r)
 		}
 	}()
-	return xmlquery.Query(doc, expr)
+	// The expression is compiled for every call: the compiled expressions that
+	// xmlquery.Query caches keep evaluation state - "(//b)[1]" selects the
+	// first b of the first document, the second b of the next one and nothing
+	// after that.
+	exp, err := xpath.Compile(expr)
+	if err != nil {
+		return nil, err
+	}
+	return xmlquery.QuerySelector(doc, exp), nil
 }
